@@ -41,8 +41,8 @@ fn t_tou() -> Tab { vec![(0, Value::Null), (1, json!({"type": "IssuerPolicy", "i
 fn t_evid() -> Tab { vec![(0, Value::Null), (1, json!({"id": "https://example.edu/evidence/1", "type": ["DocumentVerification"]}))] }
 fn t_props() -> Tab { vec![(0, json!({})), (1, json!({"name": "cred"})), (2, json!({"description": {"a": [1, 2]}, "extra": 5}))] }
 fn t_vcs() -> Tab { vec![(0, Value::Null), (1, json!(["eyJhbGciOiJFZERTQSJ9.eyJ2YyI6MX0.c2ln"])), (2, json!(["eyJhbGciOiJFZERTQSJ9.eyJ2YyI6MX0.c2ln", "eyJhbGciOiJFZERTQSJ9.eyJ2YyI6Mn0.c2ln"]))] }
-fn url_id(k: i64) -> Value { json!(format!("https://example.edu/credentials/{k}")) }
-fn un_url_id(v: &Value) -> Option<i64> { v.as_str()?.strip_prefix("https://example.edu/credentials/")?.parse().ok() }
+pub fn url_id(k: i64) -> Value { json!(format!("https://example.edu/credentials/{k}")) }
+pub fn un_url_id(v: &Value) -> Option<i64> { v.as_str()?.strip_prefix("https://example.edu/credentials/")?.parse().ok() }
 fn sub_id(k: i64) -> Value { json!(format!("did:example:subject{k}")) }
 fn un_sub_id(v: &Value) -> Option<i64> { v.as_str()?.strip_prefix("did:example:subject")?.parse().ok() }
 fn status(k: i64) -> Value { json!({"id": format!("https://example.edu/status/{k}"), "type": "CredentialStatusList2017"}) }
@@ -51,8 +51,8 @@ fn proof(k: i64) -> Value { json!({"type": "RsaSignature2018", "proofValue": for
 fn un_proof(v: &Value) -> Option<i64> { v.get("proofValue")?.as_str()?.strip_prefix("abc")?.parse().ok() }
 fn holder(k: i64) -> Value { json!(if k == 1 { HOLDER.to_string() } else { format!("did:example:other{k}") }) }
 fn un_holder(v: &Value) -> Option<i64> { let s = v.as_str()?; if s == HOLDER { Some(1) } else { s.strip_prefix("did:example:other")?.parse().ok() } }
-fn aud(k: i64) -> Value { json!(format!("https://verifier.example/{k}")) }
-fn un_aud(v: &Value) -> Option<i64> { v.as_str()?.strip_prefix("https://verifier.example/")?.parse().ok() }
+pub fn aud(k: i64) -> Value { json!(format!("https://verifier.example/{k}")) }
+pub fn un_aud(v: &Value) -> Option<i64> { v.as_str()?.strip_prefix("https://verifier.example/")?.parse().ok() }
 const CNAMES: [(i64, &str); 12] = [(1, "exp"), (2, "iss"), (3, "iat"), (4, "nbf"), (5, "jti"), (6, "sub"), (7, "vc"), (8, "aud"), (9, "vp"), (20, "nonce"), (21, "foo"), (22, "cnf")];
 /// a custom claim value, typed as the registered member of that name would be (a well-typed collision)
 fn custom_val(name: i64, v: i64, pres: bool) -> Value {
@@ -61,11 +61,11 @@ fn custom_val(name: i64, v: i64, pres: bool) -> Value {
 fn custom_unval(name: i64, x: &Value, pres: bool) -> Option<i64> {
   match name { 1 | 3 | 4 => x.as_i64(), 2 => if pres { un_holder(x) } else { Some(rev(&t_issuer(), Some(x))) }, 5 => un_url_id(x), 6 => un_sub_id(x), 7 | 9 => x.get("x")?.as_i64(), 8 => if pres { un_aud(x) } else { x.as_i64() }, _ => x.get("v")?.as_i64() }
 }
-fn custom_obj(cu: &[(i64, i64)], pres: bool) -> Option<Object> {
+pub fn custom_obj(cu: &[(i64, i64)], pres: bool) -> Option<Object> {
   if cu.is_empty() { return None; }
   let mut o = Object::new(); for (n, v) in cu { o.insert(CNAMES.iter().find(|c| c.0 == *n).unwrap().1.to_string(), custom_val(*n, *v, pres)); } Some(o)
 }
-fn custom_ints(o: &Option<Object>, pres: bool, order: &[(i64, i64)]) -> Vec<i64> {
+pub fn custom_ints(o: &Option<Object>, pres: bool, order: &[(i64, i64)]) -> Vec<i64> {
   let mut ps: Vec<(i64, i64)> = vec![];
   if let Some(o) = o { for (k, x) in o.iter() { let n = CNAMES.iter().find(|c| c.1 == k).map(|c| c.0).unwrap_or(-99); ps.push((n, custom_unval(n, x, pres).unwrap_or(-99))); } }
   // canonical order: the order of the case's custom list (a JSON object is unordered)
@@ -73,8 +73,8 @@ fn custom_ints(o: &Option<Object>, pres: bool, order: &[(i64, i64)]) -> Vec<i64>
   let mut out = vec![ps.len() as i64]; for (n, v) in ps { out.extend([n, v]); } out
 }
 
-fn ro(v: &mut &[i64]) -> Option<i64> { let f = take1(v).unwrap(); let x = take1(v).unwrap(); if f == 0 { None } else { Some(x) } }
-fn wo(o: &mut Vec<i64>, x: Option<i64>) { match x { Some(v) => o.extend([1, v]), None => o.extend([0, 0]) } }
+pub fn ro(v: &mut &[i64]) -> Option<i64> { let f = take1(v).unwrap(); let x = take1(v).unwrap(); if f == 0 { None } else { Some(x) } }
+pub fn wo(o: &mut Vec<i64>, x: Option<i64>) { match x { Some(v) => o.extend([1, v]), None => o.extend([0, 0]) } }
 #[derive(Clone, Debug, PartialEq)]
 struct C { ctx: i64, id: Option<i64>, types: i64, sub_id: Option<i64>, sub_props: i64, issuer: i64, issued: i64, expires: Option<i64>, status: Option<i64>, schema: i64, refresh: i64, tou: i64, evidence: i64, nontransf: Option<i64>, props: i64, proof: Option<i64> }
 fn rd_c(v: &mut &[i64]) -> C { C { ctx: take1(v).unwrap(), id: ro(v), types: take1(v).unwrap(), sub_id: ro(v), sub_props: take1(v).unwrap(), issuer: take1(v).unwrap(), issued: take1(v).unwrap(), expires: ro(v), status: ro(v), schema: take1(v).unwrap(), refresh: take1(v).unwrap(), tou: take1(v).unwrap(), evidence: take1(v).unwrap(), nontransf: ro(v), props: take1(v).unwrap(), proof: ro(v) } }
@@ -120,16 +120,16 @@ fn decode_cred(claims: &[u8]) -> Result<(Credential, Option<Object>), String> {
 }
 
 #[derive(Clone, Debug, PartialEq)]
-struct P { ctx: i64, id: Option<i64>, types: i64, vcs: i64, holder: i64, refresh: i64, tou: i64, props: i64, proof: Option<i64> }
-fn rd_p(v: &mut &[i64]) -> P { P { ctx: take1(v).unwrap(), id: ro(v), types: take1(v).unwrap(), vcs: take1(v).unwrap(), holder: take1(v).unwrap(), refresh: take1(v).unwrap(), tou: take1(v).unwrap(), props: take1(v).unwrap(), proof: ro(v) } }
-fn wr_p(o: &mut Vec<i64>, p: &P) { o.push(p.ctx); wo(o, p.id); o.extend([p.types, p.vcs, p.holder, p.refresh, p.tou, p.props]); wo(o, p.proof); }
-fn pres_body(m: &mut Map<String, Value>, p: &P) {
+pub struct P { pub ctx: i64, pub id: Option<i64>, pub types: i64, pub vcs: i64, pub holder: i64, pub refresh: i64, pub tou: i64, pub props: i64, pub proof: Option<i64> }
+pub fn rd_p(v: &mut &[i64]) -> P { P { ctx: take1(v).unwrap(), id: ro(v), types: take1(v).unwrap(), vcs: take1(v).unwrap(), holder: take1(v).unwrap(), refresh: take1(v).unwrap(), tou: take1(v).unwrap(), props: take1(v).unwrap(), proof: ro(v) } }
+pub fn wr_p(o: &mut Vec<i64>, p: &P) { o.push(p.ctx); wo(o, p.id); o.extend([p.types, p.vcs, p.holder, p.refresh, p.tou, p.props]); wo(o, p.proof); }
+pub fn pres_body(m: &mut Map<String, Value>, p: &P) {
   for (k, x) in fwd(&t_props(), p.props).as_object().unwrap() { m.insert(k.clone(), x.clone()); }
   m.insert("@context".into(), fwd(&t_ctx(), p.ctx)); m.insert("type".into(), fwd(&t_ptypes(), p.types)); put_opt(m, "verifiableCredential", fwd(&t_vcs(), p.vcs));
   put_opt(m, "refreshService", fwd(&t_refresh(), p.refresh)); put_opt(m, "termsOfUse", fwd(&t_tou(), p.tou));
   if let Some(x) = p.proof { m.insert("proof".into(), proof(x)); }
 }
-fn pres_ints(v: &Value) -> Option<P> {
+pub fn pres_ints(v: &Value) -> Option<P> {
   let mut m = v.as_object()?.clone();
   let p = P { ctx: rev(&t_ctx(), m.remove("@context").as_ref()), id: match m.remove("id") { Some(x) => Some(un_url_id(&x)?), None => None }, types: rev(&t_ptypes(), m.remove("type").as_ref()), vcs: rev(&t_vcs(), m.remove("verifiableCredential").as_ref()),
     holder: un_holder(&m.remove("holder")?)?, refresh: rev(&t_refresh(), m.remove("refreshService").as_ref()), tou: rev(&t_tou(), m.remove("termsOfUse").as_ref()), proof: match m.remove("proof") { Some(x) => Some(un_proof(&x)?), None => None }, props: 0 };
@@ -146,9 +146,9 @@ fn decode_pres(claims: &[u8]) -> Result<PDec, String> {
     .map(|d| (d.presentation, d.expiration_date, d.issuance_date, d.aud, d.custom_claims)).map_err(|e| format!("{:?}", e))
 }
 /// no custom claims: None and an empty object are the same thing
-fn norm(o: &Option<Object>) -> Option<Object> { o.clone().filter(|m| !m.is_empty()) }
-fn gate(t: i64) -> bool { (TS_MIN..=TS_MAX).contains(&t) }
-fn used_issuance(iat: Option<i64>, nbf: Option<i64>) -> Option<i64> { match nbf { Some(n) => if gate(n) { Some(n) } else { None }, None => iat.filter(|i| gate(*i)) } }
+pub fn norm(o: &Option<Object>) -> Option<Object> { o.clone().filter(|m| !m.is_empty()) }
+pub fn gate(t: i64) -> bool { (TS_MIN..=TS_MAX).contains(&t) }
+pub fn used_issuance(iat: Option<i64>, nbf: Option<i64>) -> Option<i64> { match nbf { Some(n) => if gate(n) { Some(n) } else { None }, None => iat.filter(|i| gate(*i)) } }
 
 pub fn exec(case: &[i64]) -> Outcome {
   let kind = case[0]; let mut v = &case[1..];
